@@ -133,7 +133,9 @@ def main():
             if os.path.exists(out):
                 os.remove(out)
             env = goenv()
-            env.update({"VERIF_TIER": tier, "VERIF_SEED": str(seed), "VERIF_SHARD": "%d/%d" % (s, shards), "VERIF_OUT": out})
+            # checks whose full depth is cheap run it in the quick tier as well.
+            shard_tier = "thorough" if cfg.get("quick_runs_full_depth") else tier
+            env.update({"VERIF_TIER": shard_tier, "VERIF_SEED": str(seed), "VERIF_SHARD": "%d/%d" % (s, shards), "VERIF_OUT": out})
             env["GOMAXPROCS"] = str(cfg.get("gomaxprocs", max(1, ncpu // shards)))
             env.setdefault("GOMEMLIMIT", "3GiB")  # safety net: the sandbox has no memory limit
             if budget:
@@ -244,6 +246,7 @@ def main():
             cov["traces_validated_against_impl"] = merged["traces"]
         ev = {
             "property_id": cid, "tier": tier, "seed": seed, "level": level,
+            "depth_note": ("quick tier runs the full (thorough) depth of this check" if cfg.get("quick_runs_full_depth") else ""),
             "coverage": cov, "assumptions": merged["assumptions"] or [],
             "wall_s": round(wall, 2), "violations": nviol,
             "known_findings_reported": len(known_lines),
